@@ -653,7 +653,66 @@ func (fr *Frame) copyOp(d, s *Value, rt types.Type) *Value {
 
 // ---------- maps (opaque)
 
+// ---------- maps with integer keys: (domain, values) per map object
+//
+// A map[K]V with an integer key type is a pair of heap rows per map object: "P:<type>#dom" (Int -> Bool)
+// and one "P:<type>#j" row (Int -> component) per component of V. Other key types stay abstract (arbitrary
+// lookups, arbitrary iteration). Maps are not modified by callees with contracts unless the engine sees the
+// update instruction (trusted: callees receiving a map do not write to it).
+func (x *Exec) intKeyedMap(t types.Type) (*types.Map, bool) {
+	mt, ok := t.Underlying().(*types.Map)
+	if !ok {
+		return nil, false
+	}
+	if b, ok := mt.Key().Underlying().(*types.Basic); ok && b.Info()&types.IsInteger != 0 {
+		return mt, true
+	}
+	return nil, false
+}
+
+func (x *Exec) mapKeys(mt *types.Map) (dom string, vals []string) {
+	tk := typeKey(mt)
+	dom = "P:" + tk + "#dom"
+	x.eng.heapSorts[dom] = ArrOf(ArrOf(SBool))
+	for j, cp := range x.eng.layout(mt.Elem()) {
+		k := fmt.Sprintf("P:%s#%d", tk, j)
+		x.eng.heapSorts[k] = ArrOf(ArrOf(cp.Sort))
+		vals = append(vals, k)
+	}
+	return
+}
+
+// newMapObject: a fresh map has an empty domain.
+func (x *Exec) newMapObject(st *State, mt *types.Map, ref Term) {
+	dom, _ := x.mapKeys(mt)
+	row := x.ctx.Fresh("emptydom", ArrOf(SBool))
+	k := Term{S: "k$e", Sort: SInt}
+	x.ctx.Assume(Forall([]Term{k}, Not(Select(row, k)), Select(row, k)))
+	x.heapSetAt(st, dom, x.ctx.Name("P", Store(x.heapGet(st, dom), ref, row)), ref)
+}
+
 func (x *Exec) mapGet(fr *Frame, mv, key *Value, rt types.Type, commaOk bool) *Value {
+	if mt, ok := x.intKeyedMap(mv.T); ok {
+		st := fr.cur
+		dom, vals := x.mapKeys(mt)
+		k := key.term()
+		present := And(Neq(mv.C[0], IntLit(0)), Select(Select(x.heapGet(st, dom), mv.C[0]), k))
+		z := x.eng.zeroValue(mt.Elem())
+		vt := mt.Elem()
+		out := &Value{T: vt}
+		for j, vk := range vals {
+			out.C = append(out.C, x.ctx.Name("mv", Ite(present, Select(Select(x.heapGet(st, vk), mv.C[0]), k), z.C[j])))
+		}
+		if commaOk {
+			tt := rt.(*types.Tuple)
+			res := &Value{T: tt}
+			res.C = append(res.C, out.C...)
+			res.C = append(res.C, present)
+			return res
+		}
+		out.T = rt
+		return out
+	}
 	if commaOk {
 		tt := rt.(*types.Tuple)
 		v := fr.havocValue("mapv", tt.At(0).Type())
@@ -663,14 +722,27 @@ func (x *Exec) mapGet(fr *Frame, mv, key *Value, rt types.Type, commaOk bool) *V
 		for j := range v.C {
 			out.C = append(out.C, Ite(ok, v.C[j], z.C[j]))
 		}
-		out.C = append(out.C, Implies(Neq(mv.C[0], IntLit(0)), ok))
-		out.C[len(out.C)-1] = And(Neq(mv.C[0], IntLit(0)), ok)
+		out.C = append(out.C, And(Neq(mv.C[0], IntLit(0)), ok))
 		return out
 	}
 	return fr.havocValue("mapv", rt)
 }
 
-func (x *Exec) mapUpdate(fr *Frame, mv, key, val *Value) {}
+func (x *Exec) mapUpdate(fr *Frame, mv, key, val *Value) {
+	mt, ok := x.intKeyedMap(mv.T)
+	if !ok {
+		return
+	}
+	st := fr.cur
+	dom, vals := x.mapKeys(mt)
+	k := key.term()
+	d := x.heapGet(st, dom)
+	x.heapSetAt(st, dom, x.ctx.Name("P", Store(d, mv.C[0], Store(Select(d, mv.C[0]), k, TTrue))), mv.C[0])
+	for j, vk := range vals {
+		h := x.heapGet(st, vk)
+		x.heapSetAt(st, vk, x.ctx.Name("P", Store(h, mv.C[0], Store(Select(h, mv.C[0]), k, val.C[j]))), mv.C[0])
+	}
+}
 
 // ---------- inlining
 
